@@ -1,4 +1,4 @@
-import PedalProofs.CaitSelf
+import PedalProofs.CaitGen
 import PedalProofs.C10
 /-
 C11 — CAIT finds every occurrence that exists by construction.
@@ -144,5 +144,125 @@ theorem c11_program_matches_itself (s : T) (hb : binOp3 s = true) (ho : opLeaves
         rw [trimGo_nil_of_path_nil s (by simpa using h)]
       · left; rfl)
   simpa using h
+
+/-! ### C11, generalised patterns -/
+
+/-- **C11 (a pattern obtained from a fragment of the program by the generalisation steps).**  Let `t` be any
+node of the program (at `q` below the trimmed root) and `p` a pattern whose trimmed root GENERALISES `t` in the
+sense of `genAt` (PedalProofs/CaitGen.lean): sub-expressions replaced by `___` / `__e__`, identifiers
+consistently replaced by `_v_` placeholders (`ρ` says which identifier each placeholder stands for, `ε` which
+sub-tree each `__e__` replaced), children dropped, everything else kept.  Then `find_matches` returns a match
+rooted at that very node in which every placeholder binding is the expected one: each symbol-table entry of
+key `k` names the identifier `ρ k`, each `exp_table` entry of key `k` is the path `ε k`; and (C10) the match
+is an embedding — in particular every `__e__` key IS bound and every `_v_` placeholder's partner identifier
+is bound under its key. -/
+theorem c11_generalised_fragment_matches (ρ : String → String) (ε : String → Option Path)
+    (p s : T) (q : Path) (t : T) (ho : opLeaves p = true)
+    (hat : (trimRoot s).1.at? q = some t)
+    (hgen : genAt ρ ε (trimGo p []).2 (trimGo p []).1 ((trimRoot s).2 ++ q) t)
+    (hfield : rootField p = "none" ∨ rootField p = t.field) :
+    ∃ mr ∈ findMatches p s, mr.2 = some ((trimRoot s).2 ++ q) ∧
+      (∀ b ∈ mr.1.binds, b.id = ρ b.key) ∧ (∀ kv ∈ mr.1.exps, ε kv.1 = some kv.2) ∧
+      IsEmbedding p s mr.1 mr.2 := by
+  obtain ⟨qp, _, _, hp3⟩ := trimGo_spec p []
+  have hmeta : metasMatch true (rootField p) t = true := by
+    rcases hfield with h | h
+    · rw [h]; exact metasMatch_none _ _
+    · rw [h]; exact metasMatch_same true t
+  have hfunc : rootField p = "func" → t.field = "func" := by
+    intro hf
+    rcases hfield with h | h
+    · rw [h] at hf; exact absurd hf (by decide)
+    · rw [← h]; exact hf
+  obtain ⟨m, hm, hexp⟩ := gen_deep (ρ := ρ) (ε := ε) _ true (rootField p) _ _ t hgen hmeta hfunc
+  have hg := deep_good _ (hp3 ho) _ _ _ _ _ _ hm
+  have hmem := findMatches_intro p s q t m hat hm
+  refine ⟨_, hmem, embAt_root hg.emb, hexp.binds, hexp.exps, ?_⟩
+  exact c10_match_is_embedding p s ho _ hmem
+
+/-- the generalisation relation is not empty: with no step applied this is `c11_fragment_matches` again (for
+fragments without `__e__`-shaped identifiers), now through `gen_deep` -/
+example (ε : String → Option Path) (s t : T) (q : Path) (hs : opLeaves t = true) (hb : binOp3 t = true)
+    (hn : noExp t = true) (hat : (trimRoot s).1.at? q = some t) (hr : (trimGo t []).2 = []) :
+    ∃ mr ∈ findMatches t s, mr.2 = some ((trimRoot s).2 ++ q) := by
+  have e1 : (trimGo t []).1 = t := trimGo_nil_of_path_nil t hr
+  have hgen : genAt (fun x => x) ε (trimGo t []).2 (trimGo t []).1 ((trimRoot s).2 ++ q) t := by
+    rw [e1]; exact genAt_refl t hn hb _ _
+  obtain ⟨mr, h1, h2, _⟩ := c11_generalised_fragment_matches (fun x => x) ε t s q t hs hat hgen
+    (by right; simp [rootField, hr])
+  exact ⟨mr, h1, h2⟩
+
+/-! ### C11's last sentence without the restriction to patterns taken from the program: open finding
+
+"Generalising a matching pattern this way never loses the match", read for ANY matching pattern, is false of
+the code as it stands: from a `+` / `*` node downwards the matcher compares no AST field
+(`deep_find_match_BinOp` passes `check_meta=False`), while the wildcard that replaces such a sub-expression
+is compared with the field check on.  The full statement is kept here with no theorem attached; the witness
+below is evaluated on the model the driver runs (`#guard`, a test — strings do not reduce in the kernel), and
+the harness reproduces it on the real code in every run (KNOWN_FINDINGS: open). -/
+
+/-- replace the subtree at `path` -/
+def replaceAt : Path → T → T → T
+  | [], _, new => new
+  | i :: rest, .mk k f fl kids, new => .mk k f fl (kids.modify i (fun c => replaceAt rest c new))
+
+/-- replacing any sub-tree of a matching pattern by a `___` wildcard (standing in the same field) keeps a match -/
+def C11_GeneraliseAnyMatching_Full : Prop :=
+  ∀ (p s : T) (path : Path) (old w : T), opLeaves p = true → binOp3 p = true → p.at? path = some old →
+    w.kind = "Name" → nameClass (w.strAttr "id") = .wild → w.field = old.field →
+    findMatches p s ≠ [] → findMatches (replaceAt path p w) s ≠ []
+
+def witnessP : T :=
+  .mk "Module" "none" [⟨"body", .many [.node]⟩, ⟨"type_ignores", .many []⟩] [
+    .mk "Expr" "body" [⟨"value", .one (.node)⟩] [
+      .mk "Subscript" "value" [⟨"value", .one (.node)⟩, ⟨"slice", .one (.node)⟩, ⟨"ctx", .one (.node)⟩] [
+        .mk "Name" "value" [⟨"id", .one (.prim ⟨"str", "x"⟩)⟩, ⟨"ctx", .one (.node)⟩] [
+          .mk "Load" "ctx" [] []],
+        .mk "Slice" "slice" [⟨"lower", .one (.node)⟩, ⟨"upper", .none⟩, ⟨"step", .none⟩] [
+          .mk "BinOp" "lower" [⟨"left", .one (.node)⟩, ⟨"op", .one (.node)⟩, ⟨"right", .one (.node)⟩] [
+            .mk "Name" "left" [⟨"id", .one (.prim ⟨"str", "a"⟩)⟩, ⟨"ctx", .one (.node)⟩] [
+              .mk "Load" "ctx" [] []],
+            .mk "Add" "op" [] [],
+            .mk "Name" "right" [⟨"id", .one (.prim ⟨"str", "b"⟩)⟩, ⟨"ctx", .one (.node)⟩] [
+              .mk "Load" "ctx" [] []]]],
+        .mk "Load" "ctx" [] []]]]
+
+def witnessP' : T :=
+  .mk "Module" "none" [⟨"body", .many [.node]⟩, ⟨"type_ignores", .many []⟩] [
+    .mk "Expr" "body" [⟨"value", .one (.node)⟩] [
+      .mk "Subscript" "value" [⟨"value", .one (.node)⟩, ⟨"slice", .one (.node)⟩, ⟨"ctx", .one (.node)⟩] [
+        .mk "Name" "value" [⟨"id", .one (.prim ⟨"str", "x"⟩)⟩, ⟨"ctx", .one (.node)⟩] [
+          .mk "Load" "ctx" [] []],
+        .mk "Slice" "slice" [⟨"lower", .one (.node)⟩, ⟨"upper", .none⟩, ⟨"step", .none⟩] [
+          .mk "Name" "lower" [⟨"id", .one (.prim ⟨"str", "___"⟩)⟩, ⟨"ctx", .one (.node)⟩] [
+            .mk "Load" "ctx" [] []]],
+        .mk "Load" "ctx" [] []]]]
+
+def witnessS : T :=
+  .mk "Module" "none" [⟨"body", .many [.node]⟩, ⟨"type_ignores", .many []⟩] [
+    .mk "Expr" "body" [⟨"value", .one (.node)⟩] [
+      .mk "Subscript" "value" [⟨"value", .one (.node)⟩, ⟨"slice", .one (.node)⟩, ⟨"ctx", .one (.node)⟩] [
+        .mk "Name" "value" [⟨"id", .one (.prim ⟨"str", "x"⟩)⟩, ⟨"ctx", .one (.node)⟩] [
+          .mk "Load" "ctx" [] []],
+        .mk "Slice" "slice" [⟨"lower", .none⟩, ⟨"upper", .one (.node)⟩, ⟨"step", .none⟩] [
+          .mk "BinOp" "upper" [⟨"left", .one (.node)⟩, ⟨"op", .one (.node)⟩, ⟨"right", .one (.node)⟩] [
+            .mk "Name" "left" [⟨"id", .one (.prim ⟨"str", "a"⟩)⟩, ⟨"ctx", .one (.node)⟩] [
+              .mk "Load" "ctx" [] []],
+            .mk "Add" "op" [] [],
+            .mk "Name" "right" [⟨"id", .one (.prim ⟨"str", "b"⟩)⟩, ⟨"ctx", .one (.node)⟩] [
+              .mk "Load" "ctx" [] []]]],
+        .mk "Load" "ctx" [] []]]]
+
+def witnessWild : T :=
+  .mk "Name" "lower" [⟨"id", .one (.prim ⟨"str", "___"⟩)⟩, ⟨"ctx", .one (.node)⟩] [.mk "Load" "ctx" [] []]
+
+-- `x[a+b:]` matches `x[:a+b]`; `x[___:]` (= the first pattern with `a+b` replaced) does not
+#guard (findMatches witnessP witnessS).length == 1
+#guard (findMatches witnessP' witnessS).isEmpty
+#guard toString (repr (replaceAt [0, 0, 1, 0] witnessP witnessWild)) == toString (repr witnessP')
+#guard opLeaves witnessP && binOp3 witnessP && nameClass (witnessWild.strAttr "id") == .wild
+#guard (witnessP.at? [0, 0, 1, 0]).map (·.field) == some witnessWild.field
+-- the same three trees when the pattern IS taken from the program: nothing is lost (c11_generalised_fragment_matches)
+#guard (findMatches witnessS witnessS).length == 1
 
 end Pedal.Cait
